@@ -1120,7 +1120,7 @@ var M = &run.Monitor{
 		need("objects_ge8_members", 2000)
 		need("objects_ge65_members", 100)
 		need("objects_with_duplicate_names_reordered", 200)
-		need("strings_raw_spelling_pinned", 5000)
+		need("strings_raw_spelling_pinned", 2000)
 		need("layout_checked", 20000)
 		need("readonly_second_application", 10000)
 		need("inputs_already_formatted", 500)
